@@ -200,10 +200,35 @@ func pathRuleDoc(p *PRNG) string {
 		typ := Pick(p, []string{"TYPE @pv\n{\n  \"id\": 1\n}\n", "TYPE @pv regex\n  /ab+/\n", "TYPE @pv any\n", "TYPE @pv empty\n", "TYPE @pv\n  12\n", "TYPE @pv\n  @pw | @px\nTYPE @pw\n  1\nTYPE @px\n  \"s\"\n"})
 		return "JSIGHT 0.3\n" + typ + "GET " + path + "\n  Path\n    @pv\n  200 any\n"
 	}
-	if p.Chance(1, 2) {
-		return "JSIGHT 0.3\nGET " + path + "\n  Path\n" + body + "  200 any\n"
+	// further interactions that extend the described path by more parameters: as a root method, as a method with
+	// its own path written inside the URL, as a second URL; with and without a Path of their own
+	ext := func() string {
+		var b strings.Builder
+		for k := p.Intn(3); k > 0; k-- {
+			longer := path + fmt.Sprintf("/sub%d/{extra%d}", k, k)
+			if p.Chance(1, 3) {
+				longer += fmt.Sprintf("/deep/{deep%d}", k)
+			}
+			m := Pick(p, []string{"GET", "POST", "PUT", "PATCH"})
+			switch p.Intn(3) {
+			case 0:
+				b.WriteString(m + " " + longer + "\n  200 any\n")
+			case 1:
+				b.WriteString("URL " + longer + "\n  " + m + "\n    200 any\n")
+			default:
+				b.WriteString(m + " " + longer + "\n  Path\n  {\n    \"" + fmt.Sprintf("extra%d", k) + "\": 1\n  }\n  200 any\n")
+			}
+		}
+		return b.String()
 	}
-	return "JSIGHT 0.3\nURL " + path + "\n  Path\n" + body + "  GET\n    200 any\n  DELETE\n    200 any\n"
+	if p.Chance(1, 2) {
+		return "JSIGHT 0.3\nGET " + path + "\n  Path\n" + body + "  200 any\n" + ext()
+	}
+	inner := ""
+	if p.Chance(1, 3) { // a method with its own, longer path inside the URL (it becomes a root)
+		inner = "  DELETE " + path + "/toys/{toyId}\n    200 any\n"
+	}
+	return "JSIGHT 0.3\nURL " + path + "\n  Path\n" + body + "  GET\n    200 any\n" + inner + "  DELETE\n    200 any\n" + ext()
 }
 
 // documents aimed at notations / constructs the random model rarely combines
